@@ -53,7 +53,7 @@ fn unsubscribe_body(v5: bool, two: bool, with_prop: bool, cap: usize) {
 
 // @gv props=C02 tier=quick required=yes fns=write_unsubscribe_encoding_steps5,compute_unsubscribe_packet_length_properties5
 // @gv bounds="UNSUBSCRIBE/MQTT5 with two filters and one user property; symbolic packet id"
-// @gv timeout=1200 mem=12
+// @gv timeout=1200 mem=5
 #[kani::proof]
 #[kani::unwind(16)]
 #[kani::stub(std::fmt::format, stub_format)]
@@ -61,7 +61,7 @@ fn c02_unsubscribe5() { unsubscribe_body(true, true, true, 16) }
 
 // @gv props=C02 tier=quick required=yes fns=write_unsubscribe_encoding_steps311,compute_unsubscribe_packet_length_properties311
 // @gv bounds="UNSUBSCRIBE/MQTT3.1.1 with one filter while a user property is set (must not reach the wire); symbolic packet id"
-// @gv timeout=1200 mem=12
+// @gv timeout=1200 mem=5
 #[kani::proof]
 #[kani::unwind(10)]
 #[kani::stub(std::fmt::format, stub_format)]
